@@ -6,6 +6,7 @@ import Acra.Drv.Mpeg
 import Acra.Drv.Ch10
 import Acra.Drv.Net
 import Acra.Drv.Golay7
+import Acra.Drv.Ch11
 namespace Acra.Drv
 def allCodecs : List Codec := List.flatten [
   ftiCodecs,
@@ -13,7 +14,8 @@ def allCodecs : List Codec := List.flatten [
   Mpeg.mpegCodecs,
   ch10Codecs,
   NetC.netCodecs,
-  golay7Codecs
+  golay7Codecs,
+  Ch11.ch11Codecs
 ]
 def allFuncs : List Func := List.flatten [
   ftiFuncs,
@@ -23,6 +25,7 @@ def allFuncs : List Func := List.flatten [
   Mpeg.mpegFuncs,
   ch10Funcs,
   NetC.netFuncs,
-  golay7Funcs
+  golay7Funcs,
+  Ch11.ch11Funcs
 ]
 end Acra.Drv
